@@ -56,6 +56,13 @@ def run(ctx):
     for sp in dtn:
         sp['opts']['n_inj'] = 4 if ctx.tier == 'quick' else 8
     specs += dtn
+    # rolling re-optimisation: first steps fixed to the solution, new prices behind them
+    rf = gen.gen_many(ctx.seed, n // 2, dict(CFG, nodes=(2, 3), p_coarse=0.0, p_periodic=0.0, kinds={'SimpleContract': 2, 'Transport': 3, 'Storage': 3, 'Contract': 1}), 'c18rf_')
+    for i_, sp in enumerate(rf):
+        sp['opts']['refix'] = 2 + i_ % 4
+        sp['opts']['refix_mode'] = 'prices'
+        sp['opts']['n_inj'] = 0
+    specs += rf
     specs = ctx.specs(specs)
     res = C.run_impl('prices', specs)
     exprs, owners = [], []
@@ -110,6 +117,31 @@ def run(ctx):
             if inj['value'] > o['value'] + price * inj['d'] + 1e-5 * scale + 1e-7 * (abs(price * inj['d']) + abs(inj['value'])):
                 ctx.violation('impl-violation', {'spec': sp, 'observed': {'injection': inj, 'price': price, 'value': o['value']},
                                                  'expected': 'value(d) <= value + price*d'}, trigger={'what': 'supergradient'})
+        # ---- rolling use: the first steps fixed to this solution, new prices behind the window - the prices reported for the re-optimised
+        # problem must certify its optimum as well (nodal rows whose variables are all fixed included)
+        q = o.get('refix')
+        if isinstance(q, dict) and q.get('solve') == 'optimal' and q.get('problem') and q.get('duals') and (q.get('out') or {}).get('prices'):
+            P4, pr4 = q['problem'], q['out']['prices']
+            y4 = duals_to_y(P4, q['duals'])
+            nr4 = [i for i, t in enumerate(P4['cType']) if t == 'N']
+            rec4 = P4['map_nodal_restr']
+            ok4 = len(nr4) >= len(rec4)
+            if ok4:
+                nr4 = nr4[len(nr4) - len(rec4):]
+                for k, i in enumerate(nr4):
+                    t, node = rec4[k]
+                    col = pr4.get('nodal price: ' + node)
+                    if col is None or col[t] is None:
+                        ok4 = False
+                        break
+                    y4[i] = -col[t]
+            if not ok4:
+                ctx.violation('impl-violation', {'spec': sp, 'mode': 'first steps fixed, re-optimised', 'observed': 'no nodal price for a nodal row of the re-optimised problem',
+                                                 'expected': 'a price per (node, step) with a nodal restriction'}, trigger={'what': 'missing (refix)'})
+            else:
+                exprs.append('(check_opt %s %s %s %s)' % (C.q(2e-6 * (1 + abs(q['value']))), C.lp(P4), C.qvec(q['x']), C.qvec(y4)))
+                owners.append((sp, q))
+                ctx.count('re-optimised with fixed first steps: prices certified')
     # ---- split results: the interval problems form a direct sum; the price table must certify optimality of the concatenated point
     for sp, o in zip(specs, res):
         s = o.get('split') if o.get('status') == 'ok' else None
